@@ -37,10 +37,12 @@ def harnesses(tier):
     for e, (nm, rx) in ENTRIES.items():
         wit = ['witness: entry returned', 'witness: a shared table was accessed'] + (['witness: entry left by exception'] if e in (1, 2, 5, 6, 9) else [])
         shapes.append(dict(d, ENTRY=e, _tag='entry=' + nm, _witness=tuple(wit)))
-    return [Harness('K1.lock_discipline', FAM, roots, 'c13_lock.c', stubs=STUBS, shapes=shapes, opts=['--unwind', '4'], timeout=300, mem_gb=6, string_model=True,
+    from props import C19
+    u = C19.use_harness(tier); u.name = 'K2.use(lock discipline and evaluate-once)'
+    return [u, Harness('K1.lock_discipline', FAM, roots, 'c13_lock.c', stubs=STUBS, shapes=shapes, opts=['--unwind', '4'], timeout=300, mem_gb=6, string_model=True,
                     defines={'STRING_LITERALS_OPAQUE': 1}, inputs=['name', 'objd'], note='table operations are stubs asserting the lock state; outcome of find/insert is symbolic (found / not found, inserted / conflict)')]
 
 ASSUMPTIONS = ['pthread_rwlock_* are a lock-state model; std::map member functions on engine tables are stubs that assert the lock mode and return arbitrary outcomes',
                'single-threaded symbolic execution: this shows a lock discipline (sufficient condition the code relies on), not absence of races by exploration']
 OUTSIDE = ['schedule exploration (no engine here can run libstdc++ shared_mutex under a scheduler)', 'races on element payloads reached through pointers read under the lock',
-           'entries not listed (add_function, get_functions, get_function_objects, conversions, ChaiScript_Basic::use / eval): to be added']
+           'entries not listed (add_function, get_functions, get_function_objects, conversions, ChaiScript_Basic::eval)']
